@@ -80,6 +80,35 @@ CLAIMED = {
         note="Trusted: Coq kernel + vm_compute; model tied by differential testing; three fix: commits in /repo "
              "(ccf3680, 5ed34e0, 699eef2); one known finding (zero-output step).",
         technique="Coq proof over aux-assignment model + refutation witness for the known finding + correspondence + conservation oracle"),
+    "C07": dict(
+        text="Machine-checked theorems over the model of set_user_wfactors + Factors::normalize, with a factor set seen as "
+             "its first-match lookup function, for every factor list (any subset of keys, duplicates, any values), every "
+             "user RED1/RED2 option and defaults: supplied factors are never changed or removed except the five fixed by "
+             "the method, which become (1,0,0); missing step A export factors default to the on-site supply factor and "
+             "step B ones to the carrier's grid supply factor; RED1/RED2 follow user > file > default; a prepared set is "
+             "complete — energy_performance of ANY component list whose carriers have a grid factor in it never returns "
+             "MissingFactor (C07_complete, through an exact analysis of the keys an evaluation looks up); preparing a "
+             "prepared set returns the identical list (C07_idempotent, also with the same user values); a carrier without "
+             "grid supply factor, or no grid electricity, is rejected with MissingFactor. Correspondence: prepared lists "
+             "compared exactly (order and values) with the model; all bullets re-evaluated on implementation outputs, plus "
+             "random buildings over each accepted set's carriers.",
+        design_ref="DESIGN.md §6 C07",
+        note="Trusted: Coq kernel + vm_compute; model tied by exact differential comparison of prepared lists; comments of generated factors ignored.",
+        technique="Coq proof (lookup-function refinement of update/ensure, needed-keys analysis, list-level idempotence) + exact model/impl correspondence + oracle"),
+    "C08": dict(
+        text="Machine-checked theorem C08_invisible: for every component list with non-negative values and no AUX "
+             "component of service COGEN (true of every normalised set), every factor list, k_exp, area and load-matching "
+             "mode, energy_performance with Factors::strip applied returns the same error or the same carrier balances "
+             "as with the full set (so a success never becomes an error). Proof: strip is a filter on keys "
+             "(C08_strip_is_a_key_filter), every key an evaluation may look up satisfies the filter (C08_needed_kept), and "
+             "weighted_parts only depends on the lookups of those keys; the derived cogeneration factors are computed "
+             "from kept keys. The proof attempt exposed a genuine defect (AUX with service COGEN; fixed in d9ddfb3; "
+             "counter-example kept as C08_aux_cogen_counterexample). Correspondence: stripped lists compared exactly with "
+             "the model; every building evaluated with and without strip on the implementation (all numeric fields, error "
+             "kinds, panics).",
+        design_ref="DESIGN.md §6 C08",
+        note="Trusted: Coq kernel + vm_compute; model tied by differential testing; two fix: commits (aa35b26 strip panic on SALIDA, d9ddfb3).",
+        technique="Coq proof (needed-keys congruence of weighted_parts + key-filter lemma) + exact strip correspondence + with/without-strip oracle"),
     "C12": dict(
         text="Machine-checked theorems for every component list: with both electricity sources declared, used_pv = "
              "f*min(pv,u), used_chp = f*min(chp, u-min(pv,u)), cogenerated electricity is used only when the on-site "
